@@ -267,7 +267,7 @@ def validatePseudo (o : Opts) (r : PReq) (c : H2Ctx) : Except Nat (PReq × H2Ctx
   | .ok r =>
     let bad : Bool :=
       if o.headerStrict then
-        (if o.ctrlsReject then false else r.target.any uriCharInvalidStrict)
+        (if o.ctrlsReject then fragmentInvalidStrict r.target else r.target.any uriCharInvalidStrict)
       else r.target.any (fun b => b = 0 || b = cr || b = lf)
     if bad then .error 400 else .ok (r, c)
 
